@@ -35,6 +35,17 @@ Theorem C03_validated_configuration_books_everything :
 Proof. exact valid_config_books. Qed.
 Print Assumptions C03_validated_configuration_books_everything.
 
+(* ... and so a governance update to a configuration that Params.Validate accepts is one of the updates the history theorem
+   allows (`good_op (DSetSubs ...)`), as long as it stays outside K1 / K2 and among the known accounts *)
+Theorem C03_validated_update_keeps_the_books :
+  forall (Known : dacct -> Prop) l, dparams_valid l = true ->
+  Forall (fun s => sd_uids_ok (ps_sd s)) l ->
+  Forall (fun s => sources_in_order (sd_sources (ps_sd s))) l ->
+  Forall (dests_shaped plainR) (map ps_sd l) -> Forall (dests_in Known) (map ps_sd l) ->
+  good_op Known (DSetSubs (map ps_sd l)).
+Proof. exact validated_update_is_good. Qed.
+Print Assumptions C03_validated_update_keeps_the_books.
+
 (* one block: never panics, keeps the invariant (books never exceed the balance, even when MAIN is a
    later primary destination), whatever fails *)
 Theorem C03_block_keeps_the_books :
